@@ -6,6 +6,11 @@ import os, glob
 HERE = os.path.dirname(os.path.dirname(os.path.abspath(__file__)))
 CLAIMED = {os.path.basename(f)[:-5]: json.load(open(f)) for f in sorted(glob.glob(HERE + '/manifest.d/C*.json'))}
 NOT_YET = {}
+# cross-cutting additions to the notes: manifest.d/<name>.notes.json = {property id: sentence appended to level_note}
+for f in sorted(glob.glob(HERE + '/manifest.d/*.notes.json')):
+    for pid, sentence in json.load(open(f)).items():
+        if pid in CLAIMED:
+            CLAIMED[pid]['note'] = CLAIMED[pid]['note'].rstrip() + ' ' + sentence
 hooks = subprocess.check_output(['git', '-C', '/repo', 'log', '--format=%H %s'], text=True).splitlines()
 hook_commits = [l.split()[0] for l in hooks if 'verif hook' in l]
 m = {
